@@ -457,11 +457,11 @@ def ref_estimate(name, v):
 
 
 def ref_sextractor_margin(v):
-    """|mean-median|/std sits within rounding of the 0.3 switch: the branch is decided by rounding."""
+    """|mean-median| - 0.3 std sits within rounding of 0: the branch is decided by rounding."""
     std = float(np.std(v))
     if std == 0:
         return False
-    return abs(abs(float(np.mean(v)) - float(np.median(v))) / std - 0.3) < 1e-6
+    return abs(abs(float(np.mean(v)) - float(np.median(v))) - 0.3 * std) < 1e-6 * std + 64 * 2.0 ** -52 * float(np.max(np.abs(v)))
 
 
 def ref_clip(v, sclip):
@@ -508,36 +508,49 @@ def ref_idw(mesh, excl, shape, box):
     return out
 
 
+def _ulp(dtype):
+    return 2.0 ** -23 if dtype == np.float32 else 2.0 ** -52
+
+
 def interp_oracle(c, mesh, excl, m, name):
-    """The map equals the documented interpolation of the (filtered) mesh outside the coverage mask."""
+    """The map is the documented interpolation of the (filtered) mesh outside the coverage mask:
+    (a) zoom: bit-identical to the same scipy call on the same mesh (incl. the ptp == 0 rule and the clip);
+        IDW: equal to a direct Shepard sum to rounding level (when at most 10 meshes are kept);
+    (b) a non-constant mesh never gives a constant map; (c) for odd box sizes the zoom map passes through the
+        mesh values at the box centres (grid_mode spline nodes), the IDW map through the kept mesh values."""
     d = c['data']
     ny, nx = d.shape
     box = (min(c['box'][0], ny), min(c['box'][1], nx))
-    if m.shape != d.shape:
+    if m.shape != d.shape or not (np.all(np.isfinite(mesh)) and np.all(np.isfinite(m))):
         return []
-    if c['interp'] == 'idw':
-        ref = ref_idw(mesh, excl, d.shape, box)
-    else:
-        ref = ref_zoom(mesh, d.shape, box, c['interp'] == 'zoom')
-    if ref is None:
-        # more than 10 kept meshes: only the identity at the mesh centres is determined
-        fails = []
-        if box[0] % 2 and box[1] % 2 and np.ptp(mesh) != 0:
-            for (i, j) in np.argwhere(~excl):
-                y, x = i * box[0] + (box[0] - 1) // 2, j * box[1] + (box[1] - 1) // 2
-                if y < ny and x < nx and not (c['cov'] is not None and c['cov'][y, x]) and m[y, x] != mesh[i, j]:
-                    fails.append(('Background2D:interpolator-reference',
-                                  f'{name}[{y},{x}] = {m[y, x]} at the centre of kept mesh [{i},{j}] = {mesh[i, j]} (IDW)'))
-                    break
-        return fails
+    sig = 'Background2D:interpolator-reference'
     cov = c['cov'] if c['cov'] is not None else np.zeros(d.shape, bool)
-    tol = (1e-4 if d.dtype == np.float32 else 1e-9) * (1.0 + float(np.max(np.abs(mesh))))
-    if not np.all(np.abs(m[~cov].astype(float) - ref[~cov]) <= tol):
-        k = np.argmax(np.where(cov, 0, np.abs(m.astype(float) - ref)))
-        y, x = divmod(int(k), nx)
-        return [('Background2D:interpolator-reference',
-                 f'{name}[{y},{x}] = {m[y, x]} but the {c["interp"]} interpolation of the mesh gives {ref[y, x]}')]
-    return []
+    mesh = np.asarray(mesh)
+    amax = float(np.max(np.abs(mesh)))
+    fails = []
+    idw = c['interp'] == 'idw'
+    ref = ref_idw(mesh, excl, d.shape, box) if idw else ref_zoom(mesh, d.shape, box, c['interp'] == 'zoom')
+    if ref is not None:
+        mm, rr = m[~cov].astype(float), np.asarray(ref)[~cov].astype(float)
+        ok = np.all(np.abs(mm - rr) <= 1e4 * _ulp(m.dtype) * amax) if idw else np.array_equal(mm, rr)
+        if not ok:
+            k = int(np.argmax(np.where(cov, 0, np.abs(m.astype(float) - np.asarray(ref, float)))))
+            y, x = divmod(k, nx)
+            fails.append((sig, f'{name}[{y},{x}] = {m[y, x]!r} but the {c["interp"]} interpolation of the mesh gives '
+                          f'{ref[y, x]!r} (mesh min {mesh.min()!r}, ptp {np.ptp(mesh)!r})'))
+    spread = float(np.ptp(mesh))
+    if spread > 1e3 * _ulp(mesh.dtype) * amax and not cov.any() and (~cov).sum() > 1 and np.ptp(m) == 0 \
+            and not (idw and (~excl).sum() == 1):
+        fails.append((sig, f'{name} is constant ({m.flat[0]!r}) although the mesh is not (ptp {spread!r})'))
+    if box[0] % 2 and box[1] % 2 and spread != 0:
+        tol = (0.0 if idw else 64 * _ulp(m.dtype) * amax)
+        for (i, j) in np.argwhere(~excl if idw else np.ones(mesh.shape, bool)):
+            y, x = i * box[0] + (box[0] - 1) // 2, j * box[1] + (box[1] - 1) // 2
+            if y < ny and x < nx and not cov[y, x] and abs(float(m[y, x]) - float(mesh[i, j])) > tol:
+                fails.append((sig, f'{name}[{y},{x}] = {m[y, x]!r} at the centre of mesh [{i},{j}] = {mesh[i, j]!r} '
+                              f'({c["interp"]})'))
+                break
+    return fails[:2]
 
 
 def mesh_reference(c, data, b1):
@@ -545,6 +558,7 @@ def mesh_reference(c, data, b1):
     of its box' for ANY estimator class: references computed per block from slices of the image.
     b1 = observables of the same configuration with filter_size=(1,1): (bkg mesh, rms mesh, npixels, excluded)."""
     fails, stats = [], {'cells': 0, 'clip_tie_skipped': 0, 'sextractor_switch_skipped': 0}
+    c['_sx_slack'] = np.inf       # min over kept cells of | |mean - median| - 0.3 std |  (data units)
     bm, rm, npx, excl = b1
     d = data.astype(float)
     ny, nx = d.shape
@@ -581,15 +595,17 @@ def mesh_reference(c, data, b1):
                     continue
             if excl[i, j] or n == 0:
                 continue
+            if c['bkg'] == 'SExtractorBackground':
+                c['_sx_slack'] = min(c['_sx_slack'], abs(abs(float(np.mean(v)) - float(np.median(v))) - 0.3 * float(np.std(v))))
             if c['bkg'] == 'SExtractorBackground' and ref_sextractor_margin(v):
                 stats['sextractor_switch_skipped'] += 1
             else:
                 rb = ref_estimate(c['bkg'], v)
-                if not abs(float(bm[i, j]) - rb) <= (2e-4 if f32 else 1e-9) * (1 + abs(rb) + float(np.max(np.abs(v)))):
+                if not abs(float(bm[i, j]) - rb) <= (2e-4 if f32 else 1e-9) * (abs(rb) + float(np.max(np.abs(v)))) + 1e-300:
                     fails.append(('Background2D:mesh-value', f'background_mesh[{i},{j}]={bm[i, j]} != {c["bkg"]} of '
                                   f'the clipped unmasked pixels of the box = {rb}'))
             rr = ref_estimate(c['rms'], v)
-            if not abs(float(rm[i, j]) - rr) <= (2e-4 if f32 else 1e-9) * (1 + abs(rr) + float(np.max(np.abs(v)))):
+            if not abs(float(rm[i, j]) - rr) <= (2e-4 if f32 else 1e-9) * (abs(rr) + float(np.max(np.abs(v)))) + 1e-300:
                 fails.append(('Background2D:rms-mesh-value', f'background_rms_mesh[{i},{j}]={rm[i, j]} != {c["rms"]} '
                               f'of the clipped unmasked pixels of the box = {rr}'))
     return fails[:4], stats
@@ -619,6 +635,22 @@ def gen_rel(seed, combo=None):
         c['mask'] = None if c['mk'] == 'none' else _mask(rng, ny, nx, c['mk'])
         c['cov'] = None if c['ck'] == 'none' else _mask(rng, ny, nx, c['ck'])
     c['data'][~np.isfinite(c['data'])] = 1.0
+    # scenes over many orders of magnitude: data = L + s * lattice, s = 2^-e, L a multiple of the quantum q = s/4
+    # (spread / level from 1 down to ~1e-12; everything stays exactly representable)
+    f32 = c['data'].dtype == np.float32
+    c['quantum'] = 1.0 if f32 else 0.25
+    c['scene'] = 'lattice'
+    if rng.random() < 0.45:
+        e = rng.randint(0, 8 if f32 else 30) if rng.random() < 0.6 else 0
+        s = 2.0 ** -e
+        q = s * c['quantum']
+        M = int(2.0 ** rng.uniform(0, 12 if f32 else 44)) * rng.choice([1, 1, -1]) if rng.random() < 0.8 else 0
+        L = q * M
+        c['data'] = (L + s * c['data'].astype(float)).astype(c['data'].dtype)
+        if c['fthr'] is not None:
+            c['fthr'] = float(L + s * c['fthr'])
+        c['quantum'] = q
+        c['scene'] = 'pedestal'
     c['bkg'] = rng.choice(BKG)
     c['rms'] = rng.choice(RMS)
     c['sclip'] = rng.choice([None, 3.0, 3.0, 2.0])
@@ -695,7 +727,9 @@ def run_relations(c):
     if base is None:
         return fails, None
     bm, rm, npx, bmap, rmap, excl = base
-    eps = 1e-3 if data.dtype == np.float32 else 1e-9
+    f32 = data.dtype == np.float32
+    ulp = _ulp(data.dtype)
+
     scale = max(1.0, float(np.max(np.abs(data))))
     # R2 shape, finiteness, fill, range
     for name, mesh, m in (('background', bm, bmap), ('background_rms', rm, rmap)):
@@ -713,33 +747,71 @@ def run_relations(c):
     if np.any(rm < 0) or np.any(rmap[~cov] < 0):
         fails.append(('Background2D:negative-rms', f'negative RMS ({cfgname})'))
     # R3 constant image reproduced exactly, RMS 0
-    cval = rng.randint(-64, 64) * 0.25
+    q = c.get('quantum', 0.25)
+    cval = rng.randint(-64, 64) * q * rng.choice([1, 1, 2 ** 10, 2 ** 20 if not f32 else 2 ** 8])
     const = _obs_rel(c, np.full(data.shape, cval, dtype=data.dtype))
     if const is not None:
         if not (np.all(const[3][~cov] == cval) and np.all(const[4][~cov] == 0) and np.all(const[0] == cval)
                 and np.all(const[1] == 0)):
             fails.append(('Background2D:constant-image', f'constant image {cval} not reproduced exactly ({cfgname})'))
-    # R4 scaling by a power of two is bit-exact
-    k = 2.0 ** rng.randint(-3, 5)
+    # R4 scaling by a power of two (2^-40 .. 2^40) is bit-exact
+    k = 2.0 ** rng.randint(-40, 40)
     sc = _obs_rel(c, (data * k).astype(data.dtype), fthr=None if c['fthr'] is None else c['fthr'] * k)
     if sc is None or not (np.array_equal(sc[2], npx) and all(np.array_equal(sc[i][..., :], base[i] * k) for i in (0, 1))
                           and np.array_equal(sc[3][~cov], bmap[~cov] * k) and np.array_equal(sc[4][~cov], rmap[~cov] * k)
                           and np.all(sc[3][cov] == bmap[cov])):
         fails.append(('Background2D:scale-equivariance', f'multiplying the data by {k} does not scale the outputs ({cfgname})'))
-    # R4b scaling by 3 and shifting by an integer (rounding level tolerance)
-    sc3 = _obs_rel(c, (data * 3).astype(data.dtype), fthr=None if c['fthr'] is None else c['fthr'] * 3)
-    if sc3 is None or not (np.array_equal(sc3[2], npx) and _near(sc3[0], bm * 3, 3 * eps * scale)
-                           and _near(sc3[1], rm * 3, 3 * eps * scale)
-                           and _near(sc3[3][~cov], bmap[~cov] * 3, 3 * eps * scale)
-                           and _near(sc3[4][~cov], rmap[~cov] * 3, 3 * eps * scale)):
-        fails.append(('Background2D:scale-equivariance', f'multiplying the data by 3 does not scale the outputs ({cfgname})'))
-    sh = float(rng.randint(-40, 40))
-    so = _obs_rel(c, (data + sh).astype(data.dtype), fthr=None if c['fthr'] is None else c['fthr'] + sh)
-    tol = eps * (scale + abs(sh))
-    if so is None or not (np.array_equal(so[2], npx) and _near(so[0], bm + sh, tol) and _near(so[1], rm, tol)
-                          and _near(so[3][~cov], bmap[~cov] + sh, tol) and _near(so[4][~cov], rmap[~cov], tol)
-                          and np.all(so[3][cov] == bmap[cov]) and np.all(so[4][cov] == rmap[cov])):
-        fails.append(('Background2D:shift-equivariance', f'adding {sh} to the data does not shift the background / keeps the RMS ({cfgname})'))
+    # The remaining transformations round the data or the statistics, so decisions that sit on a tie may flip:
+    # they are run without filter_threshold, skipped (and counted) when the sigma-clip survivors change or when a
+    # SExtractor cell sits within the perturbation of its mean/median switch; tolerances are a fixed multiple of
+    # the rounding unit of the transformed magnitudes (never of the spread of the scene).
+    cn = c if c['fthr'] is None else dict(c, fthr=None)
+    bn = base if c['fthr'] is None else _obs_rel(cn, data.copy())
+    rstats = c.setdefault('_rstats', {})
+    scale = float(np.max(np.abs(data))) + c.get('quantum', 0.25)
+    sx_slack = c.get('_sx_slack', np.inf)
+
+    def compare(tag, out, kk, cc, delta, what):
+        """out ~ kk*base + cc for the background, kk*base for the RMS, to within `delta`."""
+        if bn is None or out is None:
+            if (bn is None) != (out is None):
+                fails.append((tag, f'{what}: one run raises "all boxes excluded", the other does not ({cfgname})'))
+            return
+        if not np.array_equal(out[2], bn[2]):
+            if c['sclip'] is not None:
+                rstats['clip_tie_skipped'] = rstats.get('clip_tie_skipped', 0) + 1
+                return
+            fails.append((tag, f'{what}: npixels_mesh changes ({cfgname})'))
+            return
+        okb = (_near(out[0], bn[0] * kk + cc, delta) and _near(out[3][~cov], bn[3][~cov] * kk + cc, delta))
+        if not okb and c['bkg'] == 'SExtractorBackground' and sx_slack * kk < 8 * delta:
+            rstats['sextractor_switch_skipped'] = rstats.get('sextractor_switch_skipped', 0) + 1
+            okb = True
+        okr = (_near(out[1], bn[1] * kk, delta) and _near(out[4][~cov], bn[4][~cov] * kk, delta))
+        okc = np.all(out[3][cov] == bn[3][cov]) and np.all(out[4][cov] == bn[4][cov])
+        if not (okb and okr and okc):
+            dev = max(float(np.max(np.abs(out[3][~cov] - (bn[3][~cov] * kk + cc)))) if (~cov).any() else 0.0,
+                      float(np.max(np.abs(out[0] - (bn[0] * kk + cc)))), float(np.max(np.abs(out[1] - bn[1] * kk))))
+            fails.append((tag, f'{what}: outputs deviate by {dev:.3g} > tolerance {delta:.3g} '
+                          f'(mesh spread {float(np.ptp(bn[0])):.3g}, level {scale:.3g}) ({cfgname})'))
+
+    FAC = 4096.0
+    # R4b non-dyadic scale factors 1e-12 .. 1e12
+    k = rng.choice([3.0, 10.0 ** rng.uniform(-12, 12), 10.0 ** rng.randint(-12, 12)])
+    if f32:
+        k = float(np.float32(k))
+    compare('Background2D:scale-equivariance', _obs_rel(cn, (data * k).astype(data.dtype)), k, 0.0,
+            FAC * ulp * k * scale, f'multiplying the data by {k!r}')
+    # R5 shift by a multiple of the data quantum (data + c is exact), |c| from q to 2^50 q, both signs
+    sh = float(int(2.0 ** rng.uniform(0, 20 if f32 else 50)) * q * rng.choice([1, -1]))
+    compare('Background2D:shift-equivariance', _obs_rel(cn, (data + sh).astype(data.dtype)), 1.0, sh,
+            FAC * ulp * (abs(sh) + scale), f'adding {sh!r} to the data')
+    # R5b shift by an arbitrary constant 1e-3 .. 1e8 (data + c is rounded)
+    sh = float(rng.choice([1, -1]) * 10.0 ** rng.choice([rng.uniform(-3, 8), float(rng.randint(-3, 8))]))
+    if f32:
+        sh = float(np.float32(sh))
+    compare('Background2D:shift-equivariance', _obs_rel(cn, (data + sh).astype(data.dtype)), 1.0, sh,
+            FAC * ulp * (abs(sh) + scale), f'adding {sh!r} to the data')
     return fails, base
 
 
@@ -944,9 +1016,15 @@ def run(ctx):
                           found_input=(sig != 'Background2D:interpolator-reference'))
         for k, v in c.get('_mstats', {}).items():
             ctx.stat('mesh_reference', k, v)
+        for k, v in c.get('_rstats', {}).items():
+            ctx.stat('relations', k, v)
+        ctx.stat('relations', 'scene=' + c.get('scene', 'lattice'))
+        if base is not None and float(np.max(np.abs(base[0]))) > 0:
+            ratio = float(np.ptp(base[0])) / float(np.max(np.abs(base[0])))
+            ctx.stat('relations', 'mesh_spread/level=' + ('0' if ratio == 0 else f'1e{int(np.floor(np.log10(ratio)))}'))
     for name in ('mesh_equals_reference_estimator_of_reference_clipped_block', 'map_equals_reference_interpolation',
-                 'mask_blind_bitexact', 'shape_finite_fill_range', 'constant_image_exact', 'scale_pow2_bitexact',
-                 'scale_by_3_tolerance', 'shift_integer_tolerance'):
+                 'map_not_constant_and_through_mesh_values_at_box_centres', 'mask_blind_bitexact', 'shape_finite_fill_range', 'constant_image_exact', 'scale_pow2_bitexact',
+                 'scale_nondyadic_1e-12..1e12_rounding_tolerance', 'shift_exact_quantum_multiple_up_to_2^50', 'shift_arbitrary_1e-3..1e8_rounding_tolerance'):
         ctx.support(name, nrel)
 
     # ---- everything again with bottleneck disabled ----
